@@ -68,6 +68,7 @@ type caseSpec struct {
 	Signed       bool   `json:"signed"`        // download: signature verification enabled
 	TrustSignet  string `json:"trust_signet"`  // download: base58 recipient signet
 	Mech         string `json:"mech"`          // "" = strace (download: ptrace stepper) | ptrace = stepper for this case
+	Layout       string `json:"layout"`        // updater targets: "" | linkdir = the storage sub-directory "all" is a symlink to a directory elsewhere
 	ContentID    uint64 `json:"content_id"`    // id of the new content (0 = 2); a follow-up operation writes id 3
 	FollowDir    string `json:"follow_dir"`    // phase follow: directory of the killed child whose left-over tree is operated on
 	Phase        string `json:"phase"`         // trace | kill | err | readers | follow
@@ -75,8 +76,8 @@ type caseSpec struct {
 }
 
 func (sp caseSpec) sig() string {
-	return fmt.Sprintf("%s%s|old=%s/%d/%o|new=%d/%o|opts=%s|rd=%s|tmp=%s|d=%d/%v|var=%s/%d|sig=%v", sp.Target, sp.Mech, sp.Old, sp.OldSize, sp.OldMode,
-		sp.NewSize, sp.Mode, sp.Opts, sp.Reader, sp.TmpMount, sp.Depth, sp.ParentExists, sp.Variant, sp.Entries, sp.Signed)
+	return fmt.Sprintf("%s%s|old=%s/%d/%o|new=%d/%o|opts=%s|rd=%s|tmp=%s|d=%d/%v|var=%s%s/%d|sig=%v", sp.Target, sp.Mech, sp.Old, sp.OldSize, sp.OldMode,
+		sp.NewSize, sp.Mode, sp.Opts, sp.Reader, sp.TmpMount, sp.Depth, sp.ParentExists, sp.Variant, sp.Layout, sp.Entries, sp.Signed)
 }
 
 // world is everything derived from a spec and the directory it runs in: paths,
@@ -101,6 +102,8 @@ type world struct {
 	tempPrefix string
 	freeTrees  []string // subtrees that are temporary locations as a whole
 	expectErr  bool     // the operation must fail (failing reader, corrupt archive)
+	realAll    string   // layout linkdir: the real directory behind <store>/all
+	sibling    string   // fstree: a published neighbour record that the operation never touches
 	errOK      bool     // the operation may refuse (error + old state) without that being a fault of the run
 
 	// op-time handles (child only)
@@ -238,6 +241,16 @@ func gzipMulti(b []byte) []byte {
 	return append(append(gzipBytes(b[:n/3]), gzipBytes(b[n/3:n*2/3])...), gzipBytes(b[n*2/3:])...)
 }
 
+// roots are the directories whose entries belong to the case: the sandbox, TMPDIR and,
+// for the symlinked storage layout, the real directory behind the link.
+func (w *world) roots() []string {
+	r := []string{w.sb, w.tmp}
+	if w.realAll != "" {
+		r = append(r, w.realAll)
+	}
+	return r
+}
+
 // buildWorld derives paths and expectations; it touches nothing on disk.
 func buildWorld(sp caseSpec, dir string) *world {
 	w := &world{sp: sp, dir: dir, sb: filepath.Join(dir, "sb"), tmp: filepath.Join(dir, "tmp"), destKind: "file"}
@@ -342,6 +355,12 @@ func buildWorld(sp caseSpec, dir string) *world {
 	default:
 		panic("unknown target " + sp.Target)
 	}
+	if sp.Layout == "linkdir" && (sp.Target == tGzip || sp.Target == tZip || sp.Target == tDownload) {
+		w.realAll = filepath.Join(dir, "real-all") // outside the sandbox walk: seen only through the link
+	}
+	if sp.Target == tFstree && sp.Variant != "newdir" && (sp.ParentExists || sp.Old != "absent") {
+		w.sibling = filepath.Join(filepath.Dir(w.dest), ".keep7")
+	}
 	w.tempPrefix = "." + filepath.Base(w.dest)
 	return w
 }
@@ -374,6 +393,18 @@ func (w *world) oldMode() uint32 {
 func (w *world) setup() {
 	sp := w.sp
 	follow := sp.Phase == "follow" // re-open the left-over tree of a killed run: create no pre-state
+	if follow {
+		// the pre-state of a follow-up is the tree as the earlier process left it, before anything is
+		// re-opened (only the harness's own new source file is put in place first)
+		if sp.Target == tCopy || sp.Target == tReplace {
+			sm := sp.SrcMode
+			if sm == 0 {
+				sm = 0o640
+			}
+			writeRaw(w.srcPath, w.new, sm)
+		}
+		w.writeSnapshot()
+	}
 	must(os.MkdirAll(w.sb, 0o755))
 	must(os.MkdirAll(w.tmp, 0o755))
 	switch sp.Target {
@@ -421,8 +452,16 @@ func (w *world) setup() {
 		if w.old != nil {
 			writeRaw(w.dest, w.old, w.oldMode())
 		}
+		if w.sibling != "" {
+			writeRaw(w.sibling, recordBytes("sibling", w.payloadB), 0o644)
+		}
 	case tGzip, tZip, tDownload:
 		store := filepath.Join(w.sb, "store")
+		if w.realAll != "" && !follow {
+			must(os.MkdirAll(w.realAll, 0o755))
+			must(os.MkdirAll(store, 0o755))
+			must(os.Symlink(w.realAll, filepath.Join(store, "all")))
+		}
 		w.reg = &updater.ResourceRegistry{Name: "c17", Online: sp.Target == tDownload}
 		if sp.Target == tDownload {
 			w.reg.UpdateURLs = []string{sp.URL}
@@ -447,6 +486,12 @@ func (w *world) setup() {
 		w.reg.SelectVersions()
 	}
 	// Record the pre-state: the parent compares the post-crash tree against it.
+	if !follow {
+		w.writeSnapshot()
+	}
+}
+
+func (w *world) writeSnapshot() {
 	snap := snapshot([]string{w.sb, w.tmp})
 	b, _ := json.Marshal(snap)
 	must(os.WriteFile(filepath.Join(w.dir, "setup.json"), b, 0o644))
@@ -636,6 +681,17 @@ func snapshot(roots []string) map[string]entry {
 			case info.Mode()&os.ModeSymlink != 0:
 				e.Kind = "l"
 				e.Link, _ = os.Readlink(p)
+				// a link to a directory: what is behind it is listed under the link's path
+				if st, err := os.Stat(p); err == nil && st.IsDir() {
+					if tgt, err := filepath.EvalSymlinks(p); err == nil && !seen[tgt] {
+						seen[tgt] = true
+						for k, v := range snapshot([]string{tgt}) {
+							if k != tgt {
+								out[p+strings.TrimPrefix(k, tgt)] = v
+							}
+						}
+					}
+				}
 			case info.IsDir():
 				e.Kind = "d"
 			case info.Mode().IsRegular():
